@@ -297,14 +297,15 @@ def gen_case(rng, sites=None, exc_i=None, garbage=None):
         # no injection: the guarded layers switched on at the edges of their settings and with very few hits, where a failure
         # would be of their own making (a wrong shape, an empty list, a zero weight)
         from vlib.cfggen import merge
-        n_eps = rng.choice([0, 1, 2, 2, 3, 4])
+        grid_ = exc_i if isinstance(exc_i, int) else rng.randrange(60)
+        n_eps = [0, 1, 2, 3, 4][grid_ % 5]
         world["eps"] = world["eps"][:n_eps]
         for e_ in world["eps"]:
             e_["owner"] = "A"
         world["gel"] = [[a_, b_, w_] for a_, b_, w_ in ([[e1["id"], e2["id"], rng.choice([0.9, 0.2])] for e1 in world["eps"] for e2 in world["eps"] if e1["id"] < e2["id"]])]
-        nat = {"t2": {"k_retrieval": rng.choice([1, 2, 8]), "owner_scope": "any",
+        nat = {"t2": {"k_retrieval": [1, 2, 8][(grid_ // 5) % 3], "owner_scope": "any",
                       "hybrid": {"enabled": True, "use_graph": True, "anchor_top_m": rng.choice([1, 2, 8]), "walk_hops": rng.choice([1, 2]), "edge_threshold": rng.choice([0.0, 0.1, 1.0]),
-                                 "lambda_graph": rng.choice([0.0, 0.0, 0.25, 1.0]), "damping": rng.choice([0.0, 0.5, 1.0]), "degree_norm": rng.choice(["none", "invdeg"]),
+                                 "lambda_graph": [0.0, 0.25, 0.0, 1.0][(grid_ // 15) % 4], "damping": rng.choice([0.0, 0.5, 1.0]), "degree_norm": rng.choice(["none", "invdeg"]),
                                  "max_bonus": rng.choice([0.0, 0.5, 10.0]), "k_max": rng.choice([1, 2, 128])},
                       "quality": {"enabled": rng.random() < 0.7, "shadow": rng.random() < 0.5, "fusion": {"alpha_semantic": rng.choice([0.0, 0.6, 1.0])},
                                   "mmr": {"enabled": rng.random() < 0.7, "lambda": rng.choice([0.0, 0.5, 1.0]), "k": rng.choice([1, 2, 8])}}},
@@ -329,7 +330,7 @@ def gen_case(rng, sites=None, exc_i=None, garbage=None):
                                 # approved deltas to tell "continue with the others" from "stop at the first failure"
                                 for x in rng.sample("abcd", rng.randint(3, 4) if any(s_.startswith("store-") for s_ in sites) else rng.randint(1, 3))],
                      "reflection": True}
-    return {"world": world, "cfg": cfg, "turns": turns, "sites": list(sites), "exc": exc_i if exc_i is not None else rng.randrange(len(EXCS)),
+    return {"world": world, "cfg": cfg, "turns": turns, "sites": list(sites), "exc": (exc_i % len(EXCS)) if exc_i is not None else rng.randrange(len(EXCS)),
             "garbage": (garbage[0] if garbage else rng.choice(GARBAGE)), "garbage_name": (garbage[1] if garbage else None), "seed": rng.randint(0, 10 ** 9), "t3_deny": t3_deny,
             "exc_msg": rng.choice(["text", "text", "empty", "noargs", "multiline", "non-str"]),
             # the subsystem works for the first turn(s) and starts failing later (baseline: healthy, then switched off at the
@@ -440,7 +441,7 @@ def run(case, faulted, sess):
             if case.get("t3_deny"):
                 stack.enter_context(_env_var("CLEMATIS_T3_DENY", "1"))  # the documented kill switch of the planning stage
             ctxs = {}
-            late_at = 1 + (case["seed"] % (len(case["turns"]) - 1)) if late else None
+            late_at = (case.get("late_at") or (1 + (case["seed"] % (len(case["turns"]) - 1)))) if late else None
             for ti_, t in enumerate(case["turns"]):
                 if late and ti_ == late_at:
                     if faulted:
@@ -578,6 +579,15 @@ def _chunk(args):
             c_ = gen_case(rng, sites, exc_i, garbage=(job[2] if len(job) > 2 else None))
             if len(job) > 3 and job[3]:
                 c_["exc_msg"] = job[3]
+                c_["fixture_damage"] = "nonexistent"  # the injected exception (with this shape of arguments) is what fails
+            if len(job) > 4 and job[4]:
+                c_.update(job[4])
+                if c_.get("late_at") is not None:
+                    # what the subsystem left behind before it started failing must be able to show: wide retrieval, every
+                    # stage on, turns after the failing one
+                    c_["cfg"]["t2"].update({"owner_scope": "any", "k_retrieval": 16})
+                    c_["cfg"]["t4"].pop("enabled", None)
+                    c_["t3_deny"] = False
             check_case(c_, sess)
         except Exception as ex:
             import traceback
@@ -609,8 +619,13 @@ def main(tier: str, seed: int):
                 plan.append((["boot-garbage"], rng.randrange(len(EXCS)), (gk, gn)))
     for _ in range(40 if tier == "quick" else 10000):
         plan.append((None, None))
-    for _ in range(60 if tier == "quick" else 6000):
-        plan.append((["natural"], 0))
+    for g_ in range(60 if tier == "quick" else 6000):
+        plan.append((["natural"], g_))  # the second field walks the grid of boundary settings
+    # the subsystem works first and fails from a later turn on, on one ctx object per agent: every site that allows it
+    for s in SITES:
+        if s in LATE_OK or s.startswith(("gel-", "reflect-")):
+            for rep in range((6 if s.startswith("reflect-") else 2) if tier == "quick" else 20):
+                plan.append(([s], rng.randrange(len(EXCS)), None, None, {"late": True, "late_at": 1, "reuse_ctx": bool(rep % 2 == 0) or s.startswith("reflect-")}))
     rng.shuffle(plan)
     nj = par.NWORK
     for ex in par.pmap(_chunk, [(tier, seed, i, plan[i::nj]) for i in range(nj)]):
